@@ -38,6 +38,7 @@ Section CurrentTs.
   Hypothesis Hroll : v_ts_rollback v = true.
   Hypothesis Hnex : v_ts_exact v = false.
   Hypothesis Hforce : v_force_records v = true.
+  Hypothesis Hdfg : v_dry_fail_guard v = true.
 
   Notation step := (step matchb H Hx).
   Notation observe := (observe matchb H Hx).
@@ -110,7 +111,7 @@ Section CurrentTs.
 
   Inductive tsum (s : state) (now : N) (m : mode) (t : task) (s' : state) (r : res) : Prop :=
   | TS_skip : m <> Force -> upT s t = true -> s' = s -> r = RSkipped -> tsum s now m t s' r
-  | TS_dry : m = Dry -> upT s t = false -> tss s' = tss s -> fs s' = fs s -> r = RDry -> tsum s now m t s' r
+  | TS_dry : m = Dry -> upT s t = false -> tss s' = tss s -> fs s' = fs s -> (r = RDry \/ r = RFailed) -> tsum s now m t s' r
   | TS_bad : m <> Dry -> (m = Force \/ upT s t = false) ->
              (r = RDeclined \/ r = RFailed \/ r = RKilled) ->
              tss s' = remove_key (ts_key t) (tss s) -> fs s' = fs s -> tsum s now m t s' r
@@ -140,9 +141,10 @@ Section CurrentTs.
       set (s2 := with_tss s (remove_key (ts_key t) (tss s))) in *.
       destruct dry eqn:Ed.
       + assert (m = Dry) by (destruct m; subst dry; try discriminate; auto). subst m.
-        cbn [negb andb] in E. rewrite andb_false_r in E. cbn [andb] in E.
+        cbn [negb andb] in E. rewrite andb_false_r in E. cbn [andb] in E. rewrite Hdfg in E.
         destruct Hnu as [?|Hnu]; [discriminate|].
-        destruct (v_dry_mkdir_guard v); inversion E; subst; apply TS_dry; auto using tss_mkdir, fs_mkdir.
+        destruct (guard_ok s t); cbn [negb] in E;
+          destruct (v_dry_mkdir_guard v); inversion E; subst; apply TS_dry; auto using tss_mkdir, fs_mkdir.
       + assert (Hnd : m <> Dry) by (intros ->; subst dry; discriminate).
         cbn [negb andb] in E. rewrite andb_true_r in E.
         destruct (t_prompt t && is_prompt_no o).
@@ -152,10 +154,18 @@ Section CurrentTs.
              rewrite (on_error_ts _ t Hwt). cbn. apply remove_remove.
           -- destruct (v_prompt_rollback v); inversion E; subst; auto.
              rewrite (on_error_ts _ t Hwt). reflexivity.
-        * cbn [andb] in E. unfold run_cmds, after_success in E. rewrite Hsafe, Hforce, orb_true_r in E.
-          set (sm := mkdir s2 (t_dir t)) in *.
-          assert (Hsm : tss sm = remove_key (ts_key t) (tss s)) by (unfold sm; rewrite tss_mkdir; reflexivity).
-          assert (Hfm : fs sm = fs s) by (unfold sm; rewrite fs_mkdir; reflexivity).
+        * cbn [andb] in E.
+          destruct (guard_ok s t); cbn [negb] in E.
+          2:{ (* the sub-call fails: a failing command *)
+              inversion E; subst. clear E. rewrite (on_error_ts _ t Hwt). apply TS_bad; auto.
+              - cbn [tss with_tss]. rewrite tss_mkdir. unfold s2. cbn [tss with_tss]. apply remove_remove.
+              - cbn [fs with_tss]. rewrite fs_mkdir. reflexivity. }
+          unfold run_cmds, after_success in E. rewrite Hsafe, Hforce, orb_true_r in E.
+          set (sm := child_trace (mkdir s2 (t_dir t)) tid t) in *.
+          assert (Hsm : tss sm = remove_key (ts_key t) (tss s)).
+          { unfold sm, child_trace. destruct (t_subguard t); cbn [tss with_trace]; rewrite tss_mkdir; reflexivity. }
+          assert (Hfm : fs sm = fs s).
+          { unfold sm, child_trace. destruct (t_subguard t); cbn [fs with_trace]; rewrite fs_mkdir; reflexivity. }
           set (sok := write_outputs (N.succ now) (with_trace sm (add_trace tid 0 (t_ncmds t) (trace sm))) t) in *.
           assert (Hokc : (record matchb H Hx v now (fs s) sok t, ROk) = (s', r) -> tsum s now m t s' r).
           { intros E1. inversion E1; subst. clear E1. rewrite (record_ts _ _ _ _ Hwt).
@@ -398,7 +408,7 @@ Section CurrentTs.
                 run_task matchb H Hx v t0 s mm tid t oc = (s', x) -> ok = true /\ InvT p (t0 + 2) s' g').
       { intros mm Hmm -> Er.
         pose proof (run_task_tsum _ _ _ _ _ _ _ _ Hwt' Hmm Er) as Sm.
-        destruct Sm as [Hnf Hup -> ->|Hd Hup Ht Hf ->|Hnd Hup Hr Ht Hf|Hnd Hup -> Ht Hf].
+        destruct Sm as [Hnf Hup -> ->|Hd Hup Ht Hf Hrd|Hnd Hup Hr Ht Hf|Hnd Hup -> Ht Hf].
         - (* skipped: the marker's attempt was at this fingerprint *)
           assert (Hat : is_attempt mm RSkipped = false) by (destruct mm; reflexivity).
           cbn [is_skipped] in Ec. rewrite Hat in Ec.
@@ -407,8 +417,8 @@ Section CurrentTs.
           destruct (Hinv _ _ _ Hn Hrec) as [_ [f0 [Hg HJ]]].
           rewrite (task_fp_ts _ _ Hm), (same_fp_if_no_newer _ _ _ _ HJ Hup), Hg, Hge in Ec.
           apply Hstay; auto.
-        - subst mm. cbn in Ec. inversion Ec; subst. split; auto.
-          apply (invT_files p T (t0 + 2) s s' g' t0 Hinv); [exact Ht | lia | lia |]. intros q _. left. now rewrite Hf.
+        - subst mm. destruct Hrd as [-> | ->]; cbn in Ec; inversion Ec; subst; (split; [reflexivity|]);
+            (apply (invT_files p T (t0 + 2) s s' g' t0 Hinv); [exact Ht | lia | lia |]; intros q _; left; now rewrite Hf).
         - assert (Hat : is_attempt mm x = true).
           { destruct Hmm as [->|[->| ->]]; try congruence; destruct Hr as [->|[->| ->]]; reflexivity. }
           assert (Hsk : is_skipped x = false) by (destruct Hr as [->|[->| ->]]; reflexivity).
@@ -561,7 +571,7 @@ Section CurrentTs.
                 run_task matchb H Hx v t0 s mm tid t oc = (s', x) -> ok = true /\ InvT5 p (t0 + 2) s' g').
       { intros mm Hmm -> Er.
         pose proof (run_task_tsum _ _ _ _ _ _ _ _ Hwt' Hmm Er) as Sm.
-        destruct Sm as [Hnf Hup -> ->|Hd Hup Ht Hf ->|Hnd Hup Hr Ht Hf|Hnd Hup -> Ht Hf].
+        destruct Sm as [Hnf Hup -> ->|Hd Hup Ht Hf Hrd|Hnd Hup Hr Ht Hf|Hnd Hup -> Ht Hf].
         - assert (Hat : is_attempt mm RSkipped = false) by (destruct mm; reflexivity).
           rewrite Hat in Ec.
           destruct Hmm as [->|[->| ->]]; try congruence.
@@ -570,8 +580,8 @@ Section CurrentTs.
             * apply Hstay; auto.
             * apply Hstay; auto.
           + apply Hstay; auto.
-        - subst mm. cbn in Ec. inversion Ec; subst. split; auto.
-          apply (invT5_files p T (t0 + 2) s s' g' t0 (conj HK Hinv)); [exact Ht | lia | lia |]. intros q _. left. now rewrite Hf.
+        - subst mm. destruct Hrd as [-> | ->]; cbn in Ec; inversion Ec; subst; (split; [reflexivity|]);
+            (apply (invT5_files p T (t0 + 2) s s' g' t0 (conj HK Hinv)); [exact Ht | lia | lia |]; intros q _; left; now rewrite Hf).
         - assert (Hat : is_attempt mm x = true).
           { destruct Hmm as [->|[->| ->]]; try congruence; destruct Hr as [->|[->| ->]]; reflexivity. }
           assert (Hokx : is_ok x = false) by (destruct Hr as [->|[->| ->]]; reflexivity).
